@@ -188,7 +188,7 @@ type FuncSpec struct {
 	Safety     []string // property tags that own the zero-annotation safety obligations of this body
 	Inline     bool
 	Mutates    []MutateSpec // in-place mutation of a slice argument: every copy of that slice value now reads the new contents
-	NoMerge    bool // do not merge if-diamonds in this function (keeps literal-length slices literal so loops unroll)
+	NoMerge    bool         // do not merge if-diamonds in this function (keeps literal-length slices literal so loops unroll)
 	Trusted    bool
 	Loops      map[int]*LoopSpec
 	Iters      map[int]*LoopSpec
